@@ -22,6 +22,8 @@ Decided structurally (PBasic.cpp only):
   C17.findline  a jump to an undefined line is an error: findline's search loop, evaluated over {cursor null, non-null} x
                 {num < n, num = n, num > n}, continues exactly while the cursor exists and its number differs from n; it returns the
                 cursor; the batch branch of mustfindline raises `Undefined line` on NULL
+  C17.onrecord  ON..GOSUB: after cmdon pushes the GOSUB record every path either jumps (cmdgoto) or pops it again (an index that selects no
+                line must not leave a stale record on the loop stack)
 Not decided: (e) arithmetic/string results for all programs, (f) malformed programs always give a BASIC error.
 """
 import json
@@ -141,7 +143,7 @@ def guisibling_rule(P, R):
     nIDErrPrompt bookkeeping) and unwrapping `if (parse_whole_program)`.  A change made to one branch only (e.g. testing the
     other cursor field) makes READ deliver different values in the library than in the editor - and wrong ones."""
     from .. import shape as SH
-    R.rule("C17.datacursor", "the editor and batch branches of the DATA cursor commands (cmdread, cmdrestore) are the same algorithm", minimum=2)
+    R.rule("C17.datacursor", "the editor and batch branches of the commands implemented twice (cmdread, cmdrestore, cmdwhile, mustfindline) are the same algorithm", minimum=4)
 
     def gui_only(s_):
         if not T.is_node(s_):
@@ -166,9 +168,12 @@ def guisibling_rule(P, R):
             c = T.strip_casts(n[2])
             if T.is_node(c) and c[0] == "Member" and c[2].split("::")[-1] == "parse_whole_program" and not T.is_node(n[4]):
                 return strip(n[3])
+            if T.is_node(c) and c[0] == "Bin" and c[2] == "==" and T.strip_casts(c[3])[0] == "Member" and T.strip_casts(c[3])[2].split("::")[-1] == "parse_whole_program" \
+                    and str(T.strip_casts(c[4])[3]) in ("1", "true") and not T.is_node(n[4]):
+                return strip(n[3])
         return [n[0], n[1]] + [(strip(c) if T.is_node(c) else ([strip(cc) for cc in c] if isinstance(c, list) else c)) for c in n[2:]]
 
-    for q in ("PBasic::cmdread", "PBasic::cmdrestore"):
+    for q in ("PBasic::cmdread", "PBasic::cmdrestore", "PBasic::cmdwhile", "PBasic::mustfindline"):
         f = P.one(q)
         sites = [x for x in T.walk(f["body"]) if x[0] == "If" and T.is_node(T.strip_casts(x[2])) and T.strip_casts(x[2])[0] == "Member"
                  and T.strip_casts(x[2])[2].split("::")[-1] == "phreeqci_gui" and T.is_node(x[4])]
@@ -180,8 +185,72 @@ def guisibling_rule(P, R):
         if a == b:
             R.ok("C17.datacursor", q.split("::")[-1], "editor and batch branches have the same normal form")
         else:
-            R.violation("C17.datacursor", q.split("::")[-1], "the batch branch differs from the editor branch at %s: READ/RESTORE follow a different cursor algorithm in the library"
+            R.violation("C17.datacursor", q.split("::")[-1], "the batch branch differs from the editor branch at %s: the command follows a different algorithm in the library than in the editor (loop record / cursor handling)"
                         % (SH.first_difference(a, b),), file=f["file"], line=x[1], function=f["q"])
+
+
+def onrecord_rule(P, R):
+    """Loop-stack discipline of ON..GOSUB: cmdon pushes a GOSUB record before it knows whether the index selects a line.  On every path
+    from the push to the end of cmdon either the jump is made (cmdgoto - the RETURN will pop the record) or the record is popped again;
+    a path with neither leaves a stale record on the stack shared with FOR/NEXT, WHILE/WEND and RETURN.  (A pop guarded by a flag that is
+    set in the push block is followed along its true branch.)"""
+    RULE = "C17.onrecord"
+    R.rule(RULE, "cmdon: after pushing the GOSUB record every path either jumps (cmdgoto) or pops the record", minimum=1)
+    f = P.one("PBasic::cmdon")
+    where = dict(file=f["file"], function=f["q"])
+    cfg = T.CFG(f)
+
+    def is_push(n):
+        return T.is_node(n) and n[0] == "Bin" and n[2] == "=" and T.text(n[3]).replace(" ", "") in ("loopbase", "this.loopbase") and T.strip_casts(n[4])[0] == "Ref" and T.strip_casts(n[4])[3] == "l"
+
+    def is_jump(n):
+        return T.is_node(n) and any(T.callee_name(c) == "cmdgoto" for c in T.calls(n))
+
+    def is_pop(n):
+        return T.is_node(n) and any(T.callee_name(c) == "PHRQ_free" and c[4] and "loopbase" in T.text(c[4][0]) for c in T.calls(n))
+    pushes = []
+    gos = [x for x in T.walk(f["body"]) if x[0] == "If" and any(y[0] == "Ref" and y[2] == "enum" and y[3].endswith("tokgosub") for y in T.walk(x[2]))]
+    if not gos:
+        R.anchor_missing(RULE, "cmdon: the GOSUB branch was not found")
+        return
+    flags = set()
+    for y in T.walk(gos[0][3]):
+        if is_push(y):
+            pushes.append(y)
+        if y[0] == "Bin" and y[2] == "=" and T.strip_casts(y[3])[0] == "Ref" and T.strip_casts(y[3])[2] == "local" and T.strip_casts(y[4])[0] == "Lit" and str(T.strip_casts(y[4])[3]) in ("1", "true"):
+            flags.add(T.strip_casts(y[3])[3])
+    if not pushes:
+        R.anchor_missing(RULE, "cmdon: push of the GOSUB record (loopbase = l) not found")
+        return
+    start = [n["id"] for n in cfg.nodes if n["n"] is pushes[0] or (T.is_node(n["n"]) and any(y is pushes[0] for y in T.walk(n["n"])))]
+    if not start:
+        R.anchor_missing(RULE, "cmdon: push not found in the flow graph")
+        return
+    seen, st = {start[0]}, [start[0]]
+    leak = False
+    while st:
+        x = st.pop()
+        nd = cfg.nodes[x]
+        if x == cfg.exit:
+            leak = True
+            break
+        succ = list(nd["succ"])
+        n = nd["n"]
+        if nd["kind"] == "cond" and T.is_node(n) and T.strip_casts(n)[0] == "Ref" and T.strip_casts(n)[3] in flags and len(succ) == 2:
+            succ = succ[:1]          # the flag is true on every path that comes from the push
+        for sx in succ:
+            if sx in seen:
+                continue
+            m = cfg.nodes[sx]["n"]
+            if is_jump(m) or is_pop(m):
+                continue
+            seen.add(sx)
+            st.append(sx)
+    if leak:
+        R.violation(RULE, "cmdon", "after pushing the GOSUB record there is a path to the end of cmdon with neither the jump (cmdgoto) nor a pop of the record: for an index that "
+                    "selects no line the stale record stays on the loop stack and the next NEXT / WEND / RETURN is matched against it", line=pushes[0][1], **where)
+    else:
+        R.ok(RULE, "cmdon", "every path from the push jumps or pops")
 
 
 def findline_rule(P, R):
@@ -323,6 +392,7 @@ def run(P, R, tier):
     guisibling_rule(P, R)
     let_rule(P, R)
     findline_rule(P, R)
+    onrecord_rule(P, R)
     R.undecided += ["(e) arithmetic and string results for all programs", "(f) malformed programs produce a BASIC error, never a wrong value or a hang"]
     ens = [e for e in P.enums.values() if e["q"].endswith("BASIC_TOKEN")]
     if len(ens) != 1:
